@@ -49,7 +49,7 @@ def check(y, miss, llas, p, rep, name, lc=None):
 
 
 def run(tier, rng, rep):
-    rep.bound = "series 5..120 with >= 2 valid cells, sranges with 3..40 entries (any start, step 0.1..0.5), p in (0,1) or none, lc in [-1,1] and NaN, accessor whitsvc (sgrid float32, naming, lc raster)"
+    rep.bound = "series 5..120 with >= 2 valid cells (+ 30 / 300 seasonal series with an end spike), sranges with 3..40 entries (any start, step 0.1..0.5), p in (0,1) or none, lc in [-1,1] and NaN, accessor whitsvc (sgrid float32, naming, lc raster)"
     rep.rule = "random series and sranges (seeded); distinct = distinct (check, series, srange, p, lc)"
     for it in range(40 if tier == "quick" else 300):
         n = int(rng.choice([5, 6, 9, 20, 50, 120]))
@@ -63,6 +63,19 @@ def run(tier, rng, rep):
         llas = start + step * np.arange(nl)
         check(y, miss, llas, None, rep, "optv")
         check(y, miss, llas, float(rng.choice([0.1, 0.5, 0.9, 0.95])), rep, "optvp")
+    # smooth seasonal series with a spike on the first / last observation (own random stream): a criterion that loses a term at one
+    # end of the series selects a different lambda only on such inputs (seeded change C06_3)
+    rs = np.random.default_rng(404)
+    for it in range(30 if tier == "quick" else 300):
+        n = int(rs.integers(12, 60))
+        y = np.rint(3000 + 800 * np.sin(np.arange(n) / 4.0 + rs.uniform(0, 6.28)) + rs.normal(0, 40, n))
+        miss = rs.random(n) < 0.15
+        end = -1 if it % 2 == 0 else 0
+        miss[end] = False
+        y[end] += 1500.0
+        llas = np.arange(-2.0, 4.2, 0.2)
+        check(y, miss, llas, None, rep, "optv")
+        check(y, miss, llas, 0.9, rep, "optvp")
     # low-amplitude series on a grid that reaches lambda = 1e8 (roughness sums become tiny)
     for it in range(6 if tier == "quick" else 40):
         n = int(rng.choice([12, 24, 48]))
